@@ -3,22 +3,22 @@
 import json, sys
 claimed = {
  "C11": dict(level="exploration", design="§4 C11", technique="deterministic simulation (history dimension only): seeded histories of constructor-input / accessor-output mutations over a heap of live values under owned map order, checked step by step against a reference model built from universe indices; collision-family sub-space enumerated",
-   text="Seeded exploration of mutation histories (build from a buffer, mutate the buffer afterwards, mutate Slice()/Map() results, early-stopped iteration, JSON/Cedar round trips, nesting) on a universe built to collide in the internal hash; after every step every live value is compared with an index-based model (length, membership, equality laws, operators, decode(encode)). All 4680 member sequences of length <= 4 over the 8-element collision family are enumerated each run. This is the thinnest use of the technique here: no fault kinds exist on this surface and none are pretended.",
+   text="Seeded exploration of mutation histories (build from a buffer, mutate the buffer afterwards, mutate Slice()/Map() results, early-stopped iteration, JSON/Cedar round trips, nesting) on a universe built to collide in the internal hash; after every step every live value is compared with an index-based model (length, membership, equality laws, operators, decode(encode)); byte slices handed out by the library are held across steps, compared and scribbled on; deep twins (same model, different construction order at every level), alternative spellings of equal scalars, longs beyond 2^53 and a second collision family at the top of the hash range are part of the universe. All 4680 member sequences of length <= 4 over the 8-element collision family and all 7380 over the 9-element wrap-around family are enumerated each run. This is the thinnest use of the technique here: no fault kinds exist on this surface and none are pretended.",
    note="Trusted: the harness' model (scalar equality = same universe index), the evaluator for the operator cross-check. Sampling beyond the enumerated family."),
  "C19": dict(level="exploration", design="§4 C19", technique="deterministic simulation: cooperative seeded goroutine scheduler over statement-level yield points inserted into a scratch copy, reflection snapshots of shared inputs and all package-level variables before/during/after every read-only operation; auxiliary free-running run under the Go race detector (runtime monitoring, labelled)",
    text="Mode 1 decides 'inputs never mutated': every read-only operation runs alone with a deep reflection snapshot of all shared inputs and of every package-level variable compared before, at sampled yield points during, and after. Mode 2 decides 'returns what it would return alone': 2-4 tasks of read-only operations are interleaved by a seeded cooperative scheduler (real goroutines, one baton, every preemption from the schedule tape) and each result is compared with its solo result, the snapshot at every context switch. Mode 3 (auxiliary, not deterministic) runs the same workload free on all cores under -race.",
    note="Trusted: the soundness argument 'no write to shared inputs or globals => no race between read-only calls'; blind spots of the reflection walker (closure variables, runtime pools, same-value writes) are covered only by the race-detector mode, whose interleavings are not controlled. Statement-granularity interleaving under sequential consistency."),
  "C20": dict(level="exploration", design="§4 C20", technique="deterministic simulation (history dimension): seeded operation histories against a live PolicySet with marshal/unmarshal/load 'restarts' under owned map order, refinement-checked step by step against a plain map model; short histories enumerated",
-   text="Seeded exploration of container histories (add/replace/remove/get/Map/All/collect/marshal/JSON and Cedar round trips that replace the live set/document loads) with a map model compared after every step: contents, return values, pointer identity, authorization on a request panel, lexicographic emission, ids policy0..n-1 with positions and file name after a load. All 4680 histories of length <= 4 over 8 operations are enumerated each run.",
+   text="Seeded exploration of container histories (add/replace/remove/get/Map/All/collect/marshal/JSON and Cedar round trips that replace the live set/document loads) with a map model compared after every step: contents, return values, pointer identity, authorization on a request panel, lexicographic emission, ids policy0..n-1 with positions and file name after a load (documents of up to 139 statements), marshalled bytes held across steps, replacement during iteration, decoding into a non-empty set, ids that need JSON escaping. All 4680 histories of length <= 4 over 8 operations are enumerated each run.",
    note="Trusted: the map model, canonical policy text as the identity of a policy, cedar.Authorize over a PolicyMap as the reference for 'depends only on the contents'."),
  "C05": dict(level="fault_enumeration", design="§4 C05", technique="deterministic simulation: batch.Authorize under a simulated context (logical clock), failing/cancelling callback at every k, custom iterator and owned map order; oracle = the harness' own Cartesian enumeration + substitution + cedar.Authorize",
-   text="For every generated scenario the batch authorizer is run fault-free against a brute-force reference (own enumeration of the product, own substitution, cedar.Authorize per element: exactly-once delivery, substituted request, decision, reason set), and then once for EVERY position k at which the callback fails or cancels the context, with the context cancelled before the call, and with cancellation at sampled instants of the logical clock (yield points inside partial evaluation). Fault positions of a scenario are enumerated, scenarios are sampled.",
+   text="For every generated scenario the batch authorizer is run fault-free against a brute-force reference (own enumeration of the product, own substitution, cedar.Authorize per element: exactly-once delivery, substituted request, decision, reason set), and then once for EVERY position k at which the callback fails (with plain errors and errors wrapping foreign context errors) or cancels the context, with the context cancelled before the call, and with cancellation at sampled instants of the logical clock (yield points inside partial evaluation). Fault positions of a scenario are enumerated, scenarios are sampled.",
    note="Trusted: cedar.Authorize as the reference for a concrete request (that is the property's definition), the harness' substitution and product loop, errors.Is for error identity. Relaxations: at most one callback may start after an asynchronous cancellation; nil accepted when cancellation happens at the last element."),
  "C14": dict(level="exploration", design="§4 C14", technique="deterministic simulation: every map-iteration event in an instrumented copy is ordered by a seeded schedule tape; differential comparison of all observables between the canonical and a tape-chosen schedule / insertion order; schedule minimised to the culprit iteration site",
-   text="Seeded exploration of the schedule space Go's map randomisation creates: each scenario is observed under the canonical schedule and under a random per-event schedule (reverse, rotation, shuffle) with permuted insertion order, repetitions and a permuted custom iterator; decision, reason set, error set with messages, batch results, every encoding and every decode+re-encode must be equal. The oracle is plain equality between two legal schedules, so it cannot disagree with the implementation about semantics.",
+   text="Seeded exploration of the schedule space Go's map randomisation creates: each scenario is observed under the canonical schedule and under a random per-event schedule (reverse, rotation, shuffle) with permuted insertion order, repetitions and a permuted custom iterator; decision, reason set, error set with messages, batch results, every encoding and every decode+re-encode must be equal. Direct checks inside each pass: the same request asked again / through another container gives the same answer, every object encodes to the same bytes again after it went through the other encoders, a loaded document and the same contents built with Add encode identically. 400 run seeds are re-executed in two further fresh processes and all observables compared (per-process state such as a random hash seed). The oracle is plain equality, so it cannot disagree with the implementation about semantics.",
    note="Trusted: that verifsim.RangeMap only produces orders Go allows; that the standard library leaks no map order (encoding/json and fmt sort keys). Not observed: validator/resolver messages, x/exp/dot. Equal values built in different orders may render differently (hash collisions); that is not demanded by the property and batch requests are therefore compared through the harness' canonical rendering."),
  "C18": dict(level="fault_enumeration", design="§4 C18", technique="deterministic simulation: seeded io.Reader chunking schedules + enumerated reader faults (every byte position x kind x follow-up), differential oracle against single-read decode and an independent position model",
-   text="Seeded search over reader schedules (chunk sizes incl. 1 byte, splits inside runes/tokens/strings/comments, zero-length reads, data+EOF) on generated documents, plus, for sampled documents up to 400 bytes, enumeration of every byte position x fault kind (0-byte error, n-byte error, early EOF) x follow-up (sticky, then-EOF, transient). Fault enumeration is the right level because the property quantifies over every failure position of a finite document; documents and chunkings are sampled.",
+   text="Seeded search over reader schedules (chunk sizes incl. 1 byte, splits inside runes/tokens/strings/comments, zero-length reads, data+EOF) on generated documents, plus, for sampled documents up to 400 bytes, enumeration of every byte position x fault kind (0-byte error, n-byte error, early EOF) x follow-up (sticky, then-EOF, transient), with several error values (plain, io.ErrUnexpectedEOF, wrapped, an error printing as EOF). Positions are also read from batch.Authorize diagnostics. Fault enumeration is the right level because the property quantifies over every failure position of a finite document; documents and chunkings are sampled.",
    note="Trusted: the harness' reader stub, its independent line/column model, Go's reflect.DeepEqual on ASTs. Sampling over documents and chunk schedules is not exhaustive; only the fault positions of a sampled document are."),
 }
 na = {
